@@ -260,6 +260,10 @@ func heapKeySort(key string) string {
 		return ArraySort(SInt, ArraySort(key[3:], SBool))
 	case key == "ML":
 		return ArraySort(SInt, SInt)
+	case strings.HasPrefix(key, "GV:"):
+		// ghost: the set of keys a map range loop has produced so far ("GV:<keysort>:<n>")
+		p := strings.SplitN(key[3:], ":", 2)
+		return ArraySort(p[0], SBool)
 	}
 	return heapSort(key)
 }
